@@ -399,6 +399,93 @@ theorem prep_fixed_accepted_on_HV :
     acceptsUnitary (simMatrix 1 (prepMatrix fun _ : Fin 1 => modeBlock true 1 [vH, vV32])) = true := by
   decide +kernel
 
+/-! ### 9. one simulator object, any history of requests
+
+`SimulatorFactory.build(c)` (and a `Processor`) returns an object that serves many inputs, and
+whose circuit may be replaced in between.  The property is stated per (circuit, input) pair, so it
+must hold for *every* request of *every* history: the reply of the object is the stateless
+`answer` for the circuit in force and the input asked — whatever was asked before, whatever the
+wrapped simulator still holds from an earlier query. -/
+
+section Session
+variable {C I M S O : Type}
+
+/-- the whole transcript of replies of the long-lived object equals the transcript of the stateless
+specification, from any state whose `_upol` is the compiled circuit in force (any `inner`) -/
+theorem session_refines_stateless (env : Env C I M S O) (st : Layer M) (cur : Option C)
+    (h0 : Tracks env st cur) (h : List (Cmd C I)) :
+    (SM.run (sessionStep env) st h).2 = (SM.run (specStep env) cur h).2 :=
+  (SM.refine_run (sessionStep env) (specStep env) (Tracks env)
+    (fun s a op hr => sessionStep_tracks env s a op hr) st cur h0 h).2
+
+/-- after any history `h` on a fresh object, a query `i` is answered by `answer` for the circuit in
+force after `h` (the last circuit `set_circuit` accepted) and `i` alone -/
+theorem session_query_answer (env : Env C I M S O) (x : Option M) (h : List (Cmd C I)) (i : I) :
+    (sessionStep env (SM.exec (sessionStep env) ⟨none, x⟩ h) (.probs i)).2 =
+      answer env (inForce env none h) i := by
+  have hr := (SM.refine_run (sessionStep env) (specStep env) (Tracks env)
+    (fun s a op hr => sessionStep_tracks env s a op hr) ⟨none, x⟩ none rfl h).1
+  exact (sessionStep_tracks env _ _ (.probs i) hr).2
+
+/-- history independence: two histories that leave the same circuit in force give the same reply
+to the same input (in particular: the inputs asked before do not matter) -/
+theorem session_history_independent (env : Env C I M S O) (x y : Option M)
+    (h₁ h₂ : List (Cmd C I)) (i : I) (hc : inForce env none h₁ = inForce env none h₂) :
+    (sessionStep env (SM.exec (sessionStep env) ⟨none, x⟩ h₁) (.probs i)).2 =
+      (sessionStep env (SM.exec (sessionStep env) ⟨none, y⟩ h₂) (.probs i)).2 := by
+  rw [session_query_answer, session_query_answer, hc]
+
+/-- queries do not change the circuit in force; an accepted `set_circuit` replaces it -/
+theorem inForce_append_probs (env : Env C I M S O) (cur : Option C) (h : List (Cmd C I)) (i : I) :
+    inForce env cur (h ++ [.probs i]) = inForce env cur h := by
+  simp [inForce, SM.exec_append, SM.exec_cons, SM.exec_nil, specStep]
+
+theorem inForce_append_set (env : Env C I M S O) (cur : Option C) (h : List (Cmd C I)) (c : C) (u : M)
+    (hc : env.compile c = .ok u) :
+    inForce env cur (h ++ [.setCircuit c]) = some c := by
+  simp [inForce, SM.exec_append, SM.exec_cons, SM.exec_nil, specStep, hc]
+
+/-- the reply to a query never depends on what the wrapped simulator held before it -/
+theorem session_inner_irrelevant (env : Env C I M S O) (st : Layer M) (x : Option M) (i : I) :
+    (sessionStep env { st with inner := x } (.probs i)).2 = (sessionStep env st (.probs i)).2 := by
+  simp only [sessionStep]
+  cases env.prepare i with
+  | error e => rfl
+  | ok sp =>
+    obtain ⟨s, p⟩ := sp
+    cases hu : st.upol with
+    | none => simp
+    | some u =>
+      simp only
+      cases env.mkUnitary u p <;> rfl
+
+/-- Contrast (a design that is *not* the code's): skipping the re-write of the inner circuit when
+the preparation is the identity makes the reply depend on the previous input.  Toy instance:
+matrices are numbers, the circuit compiles to 1, input `false` prepares with 1 (all photons `H`),
+input `true` with 2; the answer is the matrix simulated.  After `set_circuit; probs true` the query
+`false` is answered with 2 instead of 1. -/
+def toyEnv : Env Unit Bool ℕ Unit ℕ where
+  compile _ := .ok 1
+  prepare b := .ok ((), if b then 2 else 1)
+  mkUnitary u p := .ok (u * p)
+  simulate w _ := w
+
+theorem stale_design_is_history_dependent :
+    inForce toyEnv none [.setCircuit ()] = inForce toyEnv none [.setCircuit (), .probs true] ∧
+    (staleStep toyEnv (· == 1) (SM.exec (staleStep toyEnv (· == 1)) ⟨none, none⟩ [.setCircuit ()])
+        (.probs false)).2 = .ok (some 1) ∧
+    (staleStep toyEnv (· == 1)
+        (SM.exec (staleStep toyEnv (· == 1)) ⟨none, none⟩ [.setCircuit (), .probs true])
+        (.probs false)).2 = .ok (some 2) ∧
+    (sessionStep toyEnv (SM.exec (sessionStep toyEnv) ⟨none, none⟩ [.setCircuit (), .probs true])
+        (.probs false)).2 = .ok (some 1) := by
+  refine ⟨rfl, rfl, rfl, rfl⟩
+
+/-- non-vacuity of `session_history_independent` / `inForce_append_set` on the toy instance -/
+example : inForce toyEnv none [.setCircuit (), .probs true, .probs false] = some () := rfl
+
+end Session
+
 /-! ### non-vacuity -/
 
 /-- rational-exact instances of every hypothesis used above: `i = GQ.I`, `(c, s) = (3/5, 4/5)`,
